@@ -178,12 +178,23 @@ theorem markFal_items (s : DState) (tid item : String) (kind : LKind) :
     (markFal s tid item kind).items = s.items := by
   unfold markFal; split <;> (try split) <;> rfl
 
+/-- after `os._exit` nothing steps: a state that steps has not exited. -/
+theorem gstep_not_exited {s s' : DState} {tid : String} {op : OpClass} {x : String} {e : List GEff}
+    (h : gstep s tid op x = some (s', e)) : s.exited = false := by
+  cases hx : s.exited with
+  | false => rfl
+  | true => unfold gstep at h; rw [if_pos hx] at h; cases h
+
+theorem gioReport_items (s : DState) : (gioReport s).items = s.items := rfl
+
 /-- one global step = at most one item step. -/
 theorem gstep_projects (s s' : DState) (tid : String) (op : OpClass) (lsnItem : String) (e : List GEff)
     (h : gstep s tid op lsnItem = some (s', e)) :
     ∀ x, getItem s' x = getItem s x ∨ ∃ a e', istep (getItem s x) a = some (getItem s' x, e') := by
   intro x
+  have hx := gstep_not_exited h
   unfold gstep at h
+  rw [if_neg (by simp [hx])] at h
   repeat' split at h
   all_goals try simp only at h
   all_goals repeat' split at h
